@@ -243,14 +243,32 @@ pub fn canon_range_data(r: &Range<Data>) -> Canon {
     Canon { h: s.0, brief: format!("Range {:?}..{:?} cells={} used={}", r.start(), r.end(), n, used) }
 }
 
+/// The owned value of a borrowed cell value: the same variant with the same payload.  Written out
+/// here so that the library's own `From<DataRef> for Data` is on one side of the comparison only.
+pub fn conv(v: &DataRef<'_>) -> Data {
+    match v {
+        DataRef::Int(x) => Data::Int(*x),
+        DataRef::Float(x) => Data::Float(*x),
+        DataRef::String(x) => Data::String(x.clone()),
+        DataRef::SharedString(x) => Data::String((*x).to_string()),
+        DataRef::Bool(x) => Data::Bool(*x),
+        DataRef::DateTime(x) => Data::DateTime(*x),
+        DataRef::DateTimeIso(x) => Data::DateTimeIso(x.clone()),
+        DataRef::DurationIso(x) => Data::DurationIso(x.clone()),
+        DataRef::Error(x) => Data::Error(x.clone()),
+        DataRef::Empty => Data::Empty,
+    }
+}
+
 pub fn canon_range_ref(r: &Range<DataRef<'_>>) -> Canon {
     let mut s = Sig::new();
     sig_bounds(&mut s, r.start(), r.end(), r.get_size());
     let mut n = 0u64;
     let mut used = 0u64;
     for (_, _, v) in r.cells() {
-        // converted cell by cell with `Data::from`, as the property states
-        let d: Data = v.clone().into();
+        // converted cell by cell, variant for variant (not through the library's `From`, which
+        // worksheet_range itself uses: a conversion that loses or changes a value must show)
+        let d: Data = conv(v);
         sig_data(&mut s, &d);
         n += 1;
         if d != Data::Empty {
@@ -392,7 +410,7 @@ pub fn own_range(r: Range<DataRef<'_>>) -> Range<Data> {
         (Some(s), Some(e)) => {
             let mut out = Range::new(s, e);
             for (i, j, v) in r.cells() {
-                let d: Data = v.clone().into();
+                let d: Data = conv(v);
                 if d != Data::Empty {
                     out.set_value((s.0 + i as u32, s.1 + j as u32), d);
                 }
